@@ -13,7 +13,8 @@ Variable entries : xml -> mentries.
 Variable kids : xml -> list kid.
 Variable mime : bytes -> mtype.
 Variable rdf0 : bytes.
-Variable mask : xml -> xml.
+Variable proj : Type.
+Variable mask : xml -> proj.
 Hypothesis par_ser : forall x, par (ser x) = x.
 Hypothesis mask_stamp : forall x, mask (stamp x) = mask x.
 Notation container := (container bytes).
@@ -25,8 +26,8 @@ Notation dB := (dB xml bytes kid).
 Notation dX := (dX xml bytes kid par).
 Notation WFd := (WFd xml bytes kid).
 Notation d_tree := (d_tree xml bytes kid par FIXED).
-Notation view := (view xml bytes kid par mask).
-Notation file_view := (file_view xml bytes kid par mask).
+Notation view := (view xml bytes kid par proj mask).
+Notation file_view := (file_view xml bytes kid par proj mask).
 Notation d_save := (d_save xml bytes kid ser par pretty stamp entries kids mime rdf0 FIXED).
 Notation ser_loop := (ser_loop xml bytes kid ser par pretty FIXED).
 Notation check_rdf := (check_rdf xml bytes kid par entries rdf0 FIXED).
@@ -54,8 +55,8 @@ Proof.
       destruct (m =? RDF) eqn:E; [apply Z.eqb_eq in E; congruence|]. apply T2. }
     split; [exact HB|]. intros m Hm. rewrite <- T3. unfold Pkgproof.dX. change (xps _ _ d') with (xps _ _ d1).
     rewrite HB; [rewrite T2; reflexivity|]. intros ->. discriminate. }
-  destruct (match m_get RDF (entries xm) with Some m => negb (m =? EMPTYMT) | None => false end);
-    destruct (memz RDF (c_listing bytes kid fs (cont _ _ d1))); cbn [fst]; auto.
+  destruct (rdf_listed FIXED (entries xm));
+    destruct (memz RDF (c_listing bytes kid FIXED fs (cont _ _ d1))); cbn [fst]; auto.
 Qed.
 
 (* the serialisation phase changes neither a tree nor the bytes of a non-XML part *)
@@ -137,7 +138,7 @@ Proof.
   destruct (c_save xml bytes kid par kids mime FIXED fs (cont _ _ d4) t pk) as [c5 ofs] eqn:CS.
   assert (S : forall m, cB fs c5 m = cB fs (cont _ _ d4) m).
   { unfold Package.c_save in CS.
-    destruct (c_load_missing_sem bytes kid fs (c_listing bytes kid fs (cont _ _ d4)) (cont _ _ d4) (wfd_c _ _ _ _ _ W4)) as [A _].
+    destruct (c_load_missing_sem bytes kid fs (c_listing bytes kid FIXED fs (cont _ _ d4)) (cont _ _ d4) (wfd_c _ _ _ _ _ W4)) as [A _].
     destruct pk; [destruct (save_zip _ _)|destruct t|destruct (lookup MIMETYPE _)]; inversion CS; subst; exact A. }
   destruct ofs as [fs5|]; inversion H; subst; apply Hc5; exact S.
 Qed.
@@ -167,6 +168,6 @@ Theorem roundtrip : forall fs (d : document) t pk pty fs' d' c,
 Proof.
   intros fs d t pk pty fs' d' c W Hpk Hm Hs Ho n.
   rewrite (open_path_view fs' (tgt_id t) c Ho).
-  apply (save_file_is_memory xml bytes kid ser par pretty stamp entries kids mime rdf0 mask par_ser fs d t pk pty fs' d' W Hpk Hm Hs).
+  apply (save_file_is_memory xml bytes kid ser par pretty stamp entries kids mime rdf0 proj mask par_ser fs d t pk pty fs' d' W Hpk Hm Hs).
 Qed.
 End S5.
